@@ -173,3 +173,36 @@ def binding_selftest(chk, trace_path):
             raise vlib.MachineryError("binding self-test: corrupted trace (%s) was accepted" % name)
         n += 1
     chk.extra["binding_selftest_rejected"] = n
+
+
+def real_protocol_traces(chk, prop):
+    """The engine observer on EVERY mini-protocol's own state map: the C16 replay (reference
+    label sequences plus one-step deviations, enumerated by TLC from MiniProtocols/ProtoEquiv)
+    drives the real engine of each protocol in both roles with a raw peer; with
+    C16_ENGINE_TRACES set it records the engine trace of every run, which EngineTrace validates."""
+    thorough = chk.tier == "thorough"
+    r = vlib.run_tlc("net/ProtoEquiv", cfg="ProtoSeqsThorough.cfg" if thorough else "ProtoSeqs.cfg", timeout=900)
+    if not (r.ok or r.violation is None):
+        raise vlib.MachineryError("ProtoSeqs failed: %s" % (r.error or r.violation))
+    chk.add_tlc("ProtoSeqs (sequences for all mini-protocols)", r)
+    cases = os.path.join(r.dir, "cases16.ndjson")
+    labels = os.path.join(r.dir, "labels16.ndjson")
+    if not (os.path.exists(cases) and os.path.exists(labels)):
+        raise vlib.MachineryError("ProtoSeqs wrote no cases")
+    drv = vlib.go_build("c16")
+    out = vlib.scratch("c16traces-")
+    if not thorough:                      # quick tier: every other sequence (all protocols stay covered)
+        rows = vlib.read_ndjson(cases)
+        cases = os.path.join(out, "cases16.ndjson")
+        vlib.write_ndjson(cases, rows[chk.seed % 2::2])
+    tp = os.path.join(out, "traces.ndjson")
+    sub = vlib.Check(chk.pid, chk.tier, chk.seed)          # the C16 verdicts belong to C16's own check
+    vlib.run_driver(sub, drv, ["replay", cases, labels], timeout=1500, env={"C16_ENGINE_TRACES": tp},
+                    keep=lambda rec: False)
+    if not os.path.exists(tp) or os.path.getsize(tp) == 0:
+        raise vlib.MachineryError("c16 wrote no engine traces")
+    n = validate_traces(chk, prop, tp)
+    chk.traces += n
+    chk.extra["real_protocol_traces_validated"] = n
+    chk.evaluations += n
+    chk.nontrivial |= {"realproto#%d" % i for i in range(n)}
